@@ -278,7 +278,15 @@ impl<'a, T: bytemuck::AnyBitPattern + FixedSize> FontRead<'a> for StateEntry<T> 
         let new_state = cursor.read()?;
         let flags = cursor.read()?;
         let remaining = cursor.remaining().ok_or(ReadError::OutOfBounds)?;
-        let payload = *remaining.read_ref_at(0)?;
+        // The payload type may have an alignment greater than one (e.g. the
+        // `u16` of `ExtendedStateTableU16`) and an entry can sit at any
+        // address, so copy the payload out instead of casting a reference.
+        let payload_bytes = remaining
+            .as_bytes()
+            .get(..T::RAW_BYTE_LEN)
+            .ok_or(ReadError::OutOfBounds)?;
+        let payload = bytemuck::try_pod_read_unaligned(payload_bytes)
+            .map_err(|_| ReadError::OutOfBounds)?;
         Ok(Self {
             new_state,
             flags,
@@ -736,6 +744,26 @@ mod tests {
                 "state {state}, class {class} should map to flags 0x{flags:X} (got 0x{:X})",
                 entry.flags
             );
+        }
+    }
+
+    /// An entry with a payload type of alignment 2 at an odd address used
+    /// to panic inside `bytemuck::from_bytes`.
+    #[test]
+    fn extended_state_table_u16_payload_at_odd_address() {
+        // n_classes = 1, class table offset 0, state array at 16, entry
+        // table at 19 (odd)
+        let bytes: [u8; 25] = [
+            0, 0, 0, 1, 0, 0, 0, 0, 0, 0, 0, 16, 0, 0, 0, 19, 0, 0, 0, 0, 1, 0, 2, 0, 3,
+        ];
+        // run at both parities of the base address
+        let mut padded = vec![0u8; 1];
+        padded.extend_from_slice(&bytes);
+        for data in [&bytes[..], &padded[1..]] {
+            let table = ExtendedStateTableU16::read(FontData::new(data)).unwrap();
+            let entry = table.entry(0, 0).unwrap();
+            assert_eq!(entry.new_state, 1);
+            assert_eq!(entry.flags, 2);
         }
     }
 }
